@@ -91,7 +91,10 @@ Step(e) ==
          /\ cnt' = [cnt EXCEPT ![e.fan].sweeps = @ + 1]
          /\ Keep(<<cf, pwm, mode, orig, reg, mtx, ctx, proc, sigs, db, faults, starts, discarded, had>>)
     [] e.ev = "SweepEnd" ->
-         /\ ph' = [ph EXCEPT ![e.fan] = IF ph[e.fan] = "Sweep" THEN "Mapped" ELSE @]
+         \* (a sweep inside computePwmMap - phase "MapRun" - is that fan's whole analysis: it ends here, still under the
+         \*  mutex; the release itself has no hook, and the fan's next event, "Attached", may come after another fan's
+         \*  "AnalysisStart")
+         /\ ph' = [ph EXCEPT ![e.fan] = IF ph[e.fan] = "Sweep" THEN "Mapped" ELSE IF ph[e.fan] = "MapRun" THEN "Map" ELSE @]
          /\ ana' = [ana EXCEPT ![e.fan] = FALSE]
          /\ Keep(<<cf, pwm, mode, orig, reg, mtx, ctx, proc, sigs, db, cnt, faults, starts, discarded, had>>)
     [] e.ev = "MeasureBegin" ->
